@@ -33,11 +33,12 @@ Theorem C05_strncat_s_slen0_refuted : exists c d dmax s slen destbos srcbos m,
   let '(r, _, tr) := exec (strncat_s c d dmax s slen destbos srcbos) m in r = EOK /\ handlers tr = [(HStr, 0)].
 Proof. exists cfg_default, 1000, 4, 2000, 0, BOS_UNKNOWN, BOS_UNKNOWN, (fun _ => 0). vm_compute. split; reflexivity. Qed.
 Print Assumptions C05_strncat_s_slen0_refuted.
-(* known finding: slen exceeds a known source size while the dest size is unknown: two reports *)
-Theorem C05_strncpy_s_srcbos_refuted : exists c d dmax s slen destbos srcbos m,
-  let '(r, _, tr) := exec (strncpy_s c d dmax s slen destbos srcbos) m in handlers tr = [(HStr, ESLEMAX); (HStr, EOVERFLOW)] /\ r = EOVERFLOW.
-Proof. exists cfg_default, 1000, 16, 2000, 10, BOS_UNKNOWN, 4, (fun _ => 97). vm_compute. split; reflexivity. Qed.
-Print Assumptions C05_strncpy_s_srcbos_refuted.
+(* repaired (fix: strncpy_s/strncat_s/stpncpy_s ... slen exceeds the source object ...): slen exceeds a known source size while the
+   dest size is unknown used to give two reports (ESLEMAX from the probe with an unknown size, then EOVERFLOW); now one, covered by
+   C05_strncpy_s (n_region_ok admits destbos = BOS_UNKNOWN).  The former witness: *)
+Example C05_strncpy_s_srcbos_single_report :
+  let '(r, _, tr) := exec (strncpy_s cfg_default 1000 16 2000 10 BOS_UNKNOWN 4) (fun _ => 97) in handlers tr = [(HStr, EOVERFLOW)] /\ r = EOVERFLOW.
+Proof. vm_compute. split; reflexivity. Qed.
 Theorem C05_strnlen_s : forall c str smax bos, hspec (fun hs r => (hs = [] \/ (r = 0 /\ exists code, code <> 0 /\ hs = [(HStr, code)]))) [] (strnlen_s c str smax bos).
 Proof. exact strnlen_s_hspec. Qed.
 Print Assumptions C05_strnlen_s.
